@@ -586,6 +586,7 @@ func runC05(c *engine.Ctx) {
 
 	// ---- R10 use_encryption of a legacy (ini) file reaches the v1 configuration (shared with C18.R14) ----
 	checkLegacyConversion(c, "R10")
+	checkTLSConfigOrigin(c, "R11")
 }
 
 // checkSecretFlows implements R6 with a forward taint from loads of secret fields.
@@ -715,4 +716,78 @@ func checkSecretFlows(c *engine.Ctx) {
 	}
 	c.Hold("repo>NewProxy-only-via-dispatcher", token.NoPos, len(p.RepoFuncs()), []string{fmt.Sprintf("%d direct WriteMsg(NewProxy) sites", nb)}, "registration messages leave only through the dispatcher")
 	c.Floor(loads, 12)
+}
+
+// checkTLSConfigOrigin (R11): the control channel's listeners and dials (package server and client) use only TLS
+// configurations built by pkg/transport — directly, stored, or cloned with (*tls.Config).Clone. A config written out
+// as a literal next to the listener carries the certificate but silently loses what NewServerTLSConfig /
+// NewClientTLSConfig decided from the trusted-CA setting (ClientAuth, ClientCAs, RootCAs, ServerName).
+func checkTLSConfigOrigin(c *engine.Ctx, rule string) {
+	c.Rule(rule, "in the server and client packages every *tls.Config passed to a call derives from transport.NewServerTLSConfig / NewClientTLSConfig (possibly through Clone or a field it was stored in); none is built there as a literal")
+	p := c.P
+	ctors := map[*types.Func]bool{}
+	for _, n := range []string{"NewServerTLSConfig", "NewClientTLSConfig"} {
+		if o := funcObj(c, "pkg/transport", n); o != nil {
+			ctors[o] = true
+		}
+	}
+	if len(ctors) == 0 {
+		return
+	}
+	isCfg := func(t types.Type) bool { return engine.IsNamed(t, "crypto/tls", "Config") }
+	n := 0
+	for _, f := range p.RepoFuncs() {
+		if f.Pkg == nil {
+			continue
+		}
+		pp := f.Pkg.Pkg.Path()
+		if pp != engine.ModPath+"/server" && pp != engine.ModPath+"/client" {
+			continue
+		}
+		f := f
+		engine.ForEachInstr(f, func(in ssa.Instruction) {
+			if al, ok := in.(*ssa.Alloc); ok && isCfg(al.Type()) {
+				n++
+				c.Violate(p.FuncName(f)+">tls-config-literal", in.Pos(), nil, "a tls.Config is built here instead of being taken (or cloned) from pkg/transport: the client-certificate / CA decisions of NewServerTLSConfig / NewClientTLSConfig do not reach this listener or dial")
+				return
+			}
+			call, ok := in.(ssa.CallInstruction)
+			if !ok {
+				return
+			}
+			if o := engine.CalleeObj(call); o != nil && o.Name() == "Clone" {
+				return
+			}
+			for i, a := range call.Common().Args {
+				if !isCfg(a.Type()) {
+					continue
+				}
+				n++
+				src := engine.DeepSourcesOpt(p, a, engine.DeepOpts{Heap: true})
+				ok := false
+				for o := range src.Calls {
+					if ctors[o] {
+						ok = true
+					}
+				}
+				for v := range src.Values {
+					if al, isAl := v.(*ssa.Alloc); isAl && isCfg(al.Type()) && al.Parent() != nil && al.Parent().Pkg != nil && al.Parent().Pkg.Pkg.Path() != engine.ModPath+"/pkg/transport" {
+						ok = false
+					}
+				}
+				c.Check(ok, fmt.Sprintf("%s>tls-config-arg#%d@%s", p.FuncName(f), i, calleeName(call)), in.Pos(), len(src.Values), nil, "the TLS configuration handed to %s comes from pkg/transport's constructors", calleeName(call))
+			}
+		})
+	}
+	c.Floor(n, 2)
+}
+
+func calleeName(call ssa.CallInstruction) string {
+	if o := engine.CalleeObj(call); o != nil {
+		return o.Name()
+	}
+	if call.Common().IsInvoke() {
+		return call.Common().Method.Name()
+	}
+	return "call"
 }
